@@ -286,6 +286,7 @@ PROPS = {
             {"run": "^TestC17Int64Float64$", "quick": 20000, "thorough": 200000},
             {"run": "^TestC17Varints$", "quick": 20000, "thorough": 200000},
             {"run": "^TestC17Slices$", "quick": 20000, "thorough": 200000},
+            {"run": "^TestC17IntCols$", "quick": 1, "thorough": 1, "single": True, "rapid": False},
         ],
     },
 }
